@@ -386,6 +386,9 @@ EXTRA_SECTIONS.append(capture_section)
 from extract_engine import engine_section  # noqa: E402  (M6 tie: EngineGen.lean / Properties/EngineTie.lean)
 EXTRA_SECTIONS.append(engine_section)
 SECTION_PROPS["extract_engine"] = ["C01", "C02", "C03", "C04", "C05", "C06", "C08", "C09", "C10", "C17"]
+from extract_sorter import sorter_section  # noqa: E402  (M2 tie: SorterGen.lean / Properties/SorterTie.lean)
+EXTRA_SECTIONS.append(sorter_section)
+SECTION_PROPS["extract_sorter"] = ["C01", "C18", "C19"]
 
 
 def main(write: bool = True) -> int:
